@@ -10,10 +10,14 @@ def run(chk):
     chk.rule = ("TLC enumerates every block of <= MaxLen lines over the MC_C07 alphabet x every configuration; each "
                 "behaviour is replayed in-process (and a sample through the CLI); non-trivial = block with >= 2 lines")
     chk.exhaustive = True
-    cfg = rc.set_consts("MC_C07", MaxLen=4 if quick else 5)
-    res = vlib.run_tlc("MC_C07", cfg_text=cfg, timeout=1500, heap="12g")
-    chk.add_tlc(res, "MC_C07 MaxLen=%d" % (4 if quick else 5))
-    rc.replay(chk, res.cases, layouts=("line", "inline", "inline2", "mltag", "twin", "combo"), cli_sample=150 if quick else 1000)
+    # quick: every block of <= 4 lines x all five key modes; thorough: that, plus <= 5 lines x the three basic modes
+    for (ml, wide) in ([(4, "TRUE")] if quick else [(4, "TRUE"), (5, "FALSE")]):
+        cfg = rc.set_consts("MC_C07", MaxLen=ml, Wide=wide)
+        res = vlib.run_tlc("MC_C07", cfg_text=cfg, timeout=3000, heap="12g")
+        chk.add_tlc(res, "MC_C07 MaxLen=%d Wide=%s" % (ml, wide))
+        rc.replay(chk, res.cases, layouts=("line", "inline", "inline2", "mltag", "twin", "combo"), cli_sample=150 if quick else 1000,
+                  label="w%d" % ml)
+        res.cases = None
     # the regex whose group may be empty (small alphabet)
     res2 = vlib.run_tlc("MC_C07", cfg_text=rc.set_consts("MC_C07", MaxLen=4 if quick else 5, Star="TRUE"), timeout=1500, heap="8g")
     chk.add_tlc(res2, "MC_C07 Star (keys that may be empty)")
